@@ -4,8 +4,26 @@ import re
 from .mirsym import Prog
 
 
+def strip_turbofish(name):
+    # 'a::b::m::<X, Y>' -> 'a::b::m' (only a trailing generic argument list)
+    if name.endswith('>'):
+        depth = 0
+        for i in range(len(name) - 1, -1, -1):
+            ch = name[i]
+            if ch == '>' and (i == 0 or name[i - 1] != '-'):
+                depth += 1
+            elif ch == '<':
+                depth -= 1
+                if depth == 0:
+                    if name[:i].endswith('::'):
+                        return name[:i - 2]
+                    return name
+    return name
+
+
 def split_name(name):
     """'<T as Trait<X>>::m' -> (T, 'Trait<X>', m);  'a::b::T::m' -> ('a::b::T', None, m)"""
+    name = strip_turbofish(name)
     if name.startswith('<'):
         depth = 0
         for i, ch in enumerate(name):
